@@ -172,7 +172,16 @@ def g_fields(r, indent, feats, holo_p):
     for k in keys:
         if r.random() < holo_p:
             feats.add("holographic")
-            lines.append(f"{indent}{k}::{r.choice(HOLOS)}")
+            h = r.choice(HOLOS)
+            k3 = r.random()
+            if k3 < 0.6:
+                lines.append(f"{indent}{k}::{h}")
+            elif k3 < 0.8:
+                feats.add("holographic_in_list")
+                lines.append(f"{indent}{k}::[{r.choice(WORDS[:13])},{h}]")
+            else:
+                feats.add("holographic_in_list")
+                lines.append(f"{indent}{k}::[[{h}],[K0::{h}]]")
         elif r.random() < 0.06:
             feats.add("literal_zone")
             tag = r.choice(["", "python", "json"])
@@ -239,8 +248,32 @@ def g_doc(r, feats, schema=None, holo_p=0.05):
         if r.random() < 0.06:
             feats.add("contract")
             metas.append(("CONTRACT", r.choice(['[FIELD[NAME]::REQ,FIELD[STATUS]::REQ\u2227ENUM[A,B]]', '[FIELD[A_B]::OPT]'])))
+        if r.random() < holo_p * 2:
+            feats.add("holographic")
+            feats.add("holographic_meta_value")
+            metas.append((r.choice(["PATTERN", "SHAPE"]), r.choice([r.choice(HOLOS), "[" + r.choice(HOLOS) + ",a]", "[a,[" + r.choice(HOLOS) + "]]"])))
         r.shuffle(metas)
         lines += [f"  {k}::{v}" for k, v in metas]
+        if r.random() < 0.18:
+            # nested META block (parse_meta_block -> plain dict) with lists / lists of maps / holographic values / scalars
+            feats.add("nested_meta")
+            for nk in r.sample(["N", "NOTES", "N2"], r.randint(1, 2)):
+                lines.append(f"  {nk}:")
+                for fk in r.sample(["L", "H", "S", "M", "E", "I"], r.randint(1, 4)):
+                    k2 = r.random()
+                    if k2 < 0.35:
+                        items = [r.choice(WORDS[:13]) for _ in range(r.randint(0, 3))]
+                        if r.random() < holo_p * 4:
+                            feats.add("holographic")
+                            items.insert(r.randint(0, len(items)), r.choice(HOLOS))
+                        lines.append(f"    {fk}::[{','.join(items)}]")
+                    elif k2 < 0.5:
+                        feats.add("holographic")
+                        lines.append(f"    {fk}::{r.choice(HOLOS)}")
+                    elif k2 < 0.6:
+                        lines.append(f"    {fk}::[[k::{r.choice(WORDS[:13])}],{r.choice(WORDS[:13])}]")
+                    else:
+                        lines.append(f"    {fk}::{g_scalar(r)}")
     if r.random() < 0.2:
         feats.add("separator")
         lines.append("---")
@@ -542,6 +575,8 @@ def holo_info(call):
             return any(has(x) for x in v.items)
         if isinstance(v, InlineMap):
             return any(has(x) for x in v.pairs.values())
+        if isinstance(v, dict):          # nested META block
+            return any(has(x) for x in v.values())
         return False
 
     def walk(nodes):
@@ -620,12 +655,11 @@ def classify(call, a, b, cfg_a, cfg_b):
     if addr_needed and a != b and (a1 == b1 or ids):
         if ADDR_RE.search(a) or ADDR_RE.search(b):
             if call["tool"] == "eject":
-                if call["args"].get("format") == "markdown":
-                    ids.append("C06-eject-markdown-object-repr")
-                else:
-                    return []
-            else:
-                ids.append("C06-message-object-repr")
+                # octave_eject has NO listed object-repr finding any more (C06-eject-markdown-object-repr was repaired
+                # by 88905cd: holographic values are shown as their pattern text): a memory address in an eject
+                # envelope is an unexplained difference
+                return []
+            ids.append("C06-message-object-repr")
     return ids
 
 
@@ -907,6 +941,42 @@ def _run(ctx, root):
             else:
                 ctx.hist("difference_attributed_to", "unattributed")
                 ctx.property_failure(case, what)
+    # ---- regressions of repaired findings (corpus records with `expect_absent` / `expect_present`): evaluated on the
+    #      output of EVERY configuration; equality across configurations was checked above like for any call ----
+    for rec, c in zip(corpus, calls[:ncorpus]):
+        if not (rec.get("expect_absent") or rec.get("expect_present") or rec.get("expect_json_output")):
+            continue
+        key = str(c["id"])
+        for ci in range(len(configs)):
+            out = per_cfg[ci].get(key)
+            if out is None:
+                continue
+            ctx.count()
+            case = {"regression": rec["_file"], "fixed": rec.get("fixed"), "call": {k: c[k] for k in ("tool", "args", "pre")},
+                    "config": {k: configs[ci][k] for k in ("seed", "cwdname", "lang", "hist", "sched")}, "output": out[:4000]}
+            problems = []
+            if out.startswith("EXC"):
+                problems.append("the call raised: " + out[:80])
+            try:
+                view = json.loads(out).get("output", "") if not out.startswith("EXC") else ""
+            except Exception:  # noqa
+                view = out
+            problems += ["output contains %r" % m for m in rec.get("expect_absent", []) if m in out or m in view]
+            problems += ["output lacks %r" % m for m in rec.get("expect_present", []) if m not in view]
+            if rec.get("expect_json_output") and not out.startswith("EXC"):
+                try:
+                    json.loads(view)
+                except Exception as e:  # noqa
+                    problems.append("json view does not parse: " + type(e).__name__)
+            if rec.get("expect_yaml_output") and not out.startswith("EXC"):
+                try:
+                    import yaml
+                    yaml.safe_load(view)
+                except Exception as e:  # noqa
+                    problems.append("yaml view is not safe_load-able: " + type(e).__name__)
+            for pr in problems[:2]:
+                ctx.property_failure(case, "regression %s: %s" % (rec.get("fixed", rec["_file"]), pr))
+        ctx.hist("corpus_regression_of_repaired_finding", rec["_file"])
     ctx.extra["differences_seen"] = ndiff
     ctx.extra["calls"] = len(calls)
     ctx.extra["corpus_calls"] = ncorpus
